@@ -16,7 +16,8 @@ FUNCTIONS = [
 ]
 BOUNDS = ("Histories are ENUMERATED, not solved: every sequence of up to 2 operations over a 20-letter "
           "alphabet plus length 3 over a 10-letter core alphabet (quick); up to 3 over the full and "
-          "4 over the core alphabet (thorough). Alphabet {translate, rotate z/x, uniform and non-uniform "
+          "4 over the core alphabet (thorough); plus every 'set_pivot, X, Y, rotate|scale' with X, Y "
+          "state operations. Alphabet {translate, rotate z/x, uniform and non-uniform "
           "scale, reflect, mirror, set_pivot, save, save('a'), restore, restore('a'), delete('a'), "
           "enter/leave current_transform(), named_transform('a'), raise inside a context; bodies that pop below the entry depth} with "
           "concrete parameters, run against an independent stack-of-matrices model. Solver over: "
@@ -326,6 +327,13 @@ CORE = ["translate", "scale-vp", "pivot", "save", "save-a", "restore", "restore-
 
 def cells(tier):
     seqs = [(a,) for a in OPS] + [(a, b) for a in OPS for b in OPS]
+    # a non-zero pivot carried through save/restore/context operations must still be the fixed
+    # point of the next rotation or scaling
+    carriers = ["save", "save-a", "restore", "restore-a", "ctx", "ctx-named", "ctx-raise", "ctx-pop"]
+    for x in carriers:
+        for y in carriers:
+            for last in ("rotate-z", "scale-xyz"):
+                seqs.append(("pivot", x, y, last))
     if tier == "quick":
         seqs += list(itertools.product(CORE, repeat=3))
     else:
